@@ -303,7 +303,27 @@ class DocGen:
         r = self.rng
         key = r.choice(["anyOf", "oneOf"])
         self.features.add(key)
-        shape = r.below(4)
+        shape = r.below(5)
+        if shape == 4 and depth < self.cfg.max_depth:
+            # tagged records: definitions with the same members, told apart only by a constant that is the
+            # name of the record type (`kind: const "Cat"` in Cat, `kind: const "Dog"` in Dog)
+            self.features.add("tagged_records")
+            proto = self.object_(depth + 1)
+            proto["additionalProperties"] = False
+            tag = r.choice(["kind", "type", "tag"])
+            proto["properties"].pop(tag, None)
+            names = [self.fresh_def(b) for b in r.sample(["Cat", "Dog", "Bird", "Fish"], r.range(2, 3))]
+            alts = []
+            for nm in names:
+                body = copy.deepcopy(proto)
+                lit = {"const": nm} if (r.chance(1, 2) and not self.cfg.draft4) else {"type": "string", "enum": [nm]}
+                body["properties"] = {tag: lit, **body["properties"]}
+                body["required"] = [tag] + [x for x in body.get("required", []) if x != tag]
+                self.defs[nm] = body
+                alts.append({"$ref": f"#/definitions/{nm}"})
+            return {key: alts}
+        if shape == 4:
+            shape = 0
         if shape == 0:
             alts = [self.integer(), self.string()]
         elif shape == 1:
